@@ -79,6 +79,14 @@ class CompactDiskAudioImage(Image):
 
     @property
     def children(self):
+        # apply the (name sanitising) routines once, like every other
+        # directory level does when its children are realised
+        if not getattr(self, "_tracks_realized", False):
+            tracks = self.tracks
+            for routine in getattr(self, "_routines", {}).values():
+                tracks = routine(tracks)
+            self.tracks = tracks
+            self._tracks_realized = True
         return self.tracks
 
     def combine_stereo_routine(self, samples: List[Sample]) -> List[Sample]:
